@@ -36,8 +36,10 @@ def _playback(unit: str, harness: str, timeout: int = 900):
         return _CACHE[(unit, harness)]
     _CACHE[(unit, harness)] = None
     u = registry.KANI_UNITS[unit]
-    if u["mode"] != "dep":
-        return None
+    if u["mode"] == "overlay":
+        res = _playback_overlay(unit, u, harness, timeout)
+        _CACHE[(unit, harness)] = res
+        return res
     src = os.path.join(BUILD, "kani", unit)
     env = dict(os.environ, CARGO_NET_OFFLINE="true")
     cmd = ["cargo", "kani", "-Z", "function-contracts", "-Z", "stubbing", "-Z", "concrete-playback", "--concrete-playback=print",
@@ -69,6 +71,39 @@ def _playback(unit: str, harness: str, timeout: int = 900):
                    f"{test_src}\n--- native execution against the real crate (cargo kani playback, rustc-compiled) ---\n{keep}\n"}
     _CACHE[(unit, harness)] = res
     return res
+
+
+def _playback_overlay(unit, u, harness, timeout):
+    """Overlay units: the playback test is appended (as a sibling child module) to the file that holds the harness, inside
+    the overlay copy of the working tree, and run natively with `cargo kani playback -p <package>`."""
+    root = os.path.join(BUILD, "overlay", unit)
+    env = dict(os.environ, CARGO_NET_OFFLINE="true")
+    cmd = ["cargo", "kani", "-p", u["package"], "-Z", "function-contracts", "-Z", "stubbing", "-Z", "concrete-playback",
+           "--concrete-playback=print", "--harness", harness, "--exact"]
+    r = subprocess.run(cmd, cwd=root, env=env, capture_output=True, text=True, timeout=timeout)
+    out = r.stdout + r.stderr
+    tests = re.findall(r"#\[test\]\s*\nfn (kani_concrete_playback_\w+)\(\) \{(.*?)\n\}", out, re.S)
+    if not tests:
+        return None
+    name, body = tests[0]
+    segs = harness.split("::")
+    modpath, hmod, hfn = segs[:-2], segs[-2], segs[-1]
+    body = re.sub(r"concrete_playback_run\(concrete_vals, \w+\)", f"concrete_playback_run(concrete_vals, super::{hmod}::{hfn})", body)
+    test_src = f"#[test]\nfn {name}() {{{body}\n}}\n"
+    base = os.path.join(root, u["prefix"], *modpath)
+    f = base + ".rs" if os.path.exists(base + ".rs") else os.path.join(base, "mod.rs")
+    if not os.path.exists(f):
+        return None
+    with open(f, "a") as fh:
+        fh.write(f"\n#[cfg(kani)]\nmod hvx_{name} {{\nextern crate std;\nuse std::prelude::v1::*;\nuse std::vec;\n" + test_src + "}\n")
+    r2 = subprocess.run(["cargo", "kani", "playback", "-p", u["package"], "-Z", "concrete-playback", "--", name], cwd=root,
+                        env=env, capture_output=True, text=True, timeout=timeout)
+    native = r2.stdout + r2.stderr
+    if not re.search(r"test result: FAILED", native):
+        return None
+    keep = "\n".join(ln for ln in native.split("\n") if re.search(r"panicked|Failed|FAILED|failures|assert|test .*hvx|running", ln))[-2500:]
+    return {"text": f"harness: {harness}\nKani concrete playback test (byte vectors = the symbolic inputs in declaration order):\n"
+                    f"{test_src}\n--- native execution against the real crate (overlay copy of the working tree; cargo kani playback) ---\n{keep}\n"}
 
 
 def counterexample(o, c, pid):
